@@ -10,6 +10,7 @@ Local Arguments Z.ltb : simpl never.
 Local Arguments Z.leb : simpl never.
 Local Arguments Z.eqb : simpl never.
 Local Arguments Nat.eqb : simpl never.
+Local Arguments coins_nil_amount : simpl never.
 
 (* ---- tactic: follow the validator's control flow, splitting on the scrutinee that is evaluated next ---- *)
 Ltac head_scrut t :=
@@ -104,14 +105,12 @@ Proof.
     (intros H s' [<-|Hin]; [reflexivity | apply IH; assumption]).
 Qed.
 
-(* ---------------- Params / MsgUpdateParams: exactly the nil-Dec inputs panic ---------------- *)
-Lemma v_Params_panic_iff_reaches_nil : forall p, v_Params p = VPanic -> params_nil_dec p = true.
+(* ---------------- Params / MsgUpdateParams / MsgBridgeCall / MsgConfirm: total since the repairs ---------------- *)
+Lemma v_Params_total : forall p, v_Params p <> VPanic.
 Proof.
-  intros [g a b c d sl ih pc [tok tid tamt] mu orc bt]; unfold v_Params, params_nil_dec; cbn.
-  destruct sl, pc, tok, tamt; try reflexivity; flow.
+  intros [g a b c d sl ih pc [tok tid tamt] mu orc bt]; unfold v_Params; cbn.
+  destruct sl, pc, tok, tamt; flow.
 Qed.
-Lemma v_Params_total : forall p, params_nil_dec p = false -> v_Params p <> VPanic.
-Proof. intros p H E; apply v_Params_panic_iff_reaches_nil in E; congruence. Qed.
 
 Definition default_params : xparams :=
   {| p_gravity := GOk; p_avg_block := 7000; p_batch_timeout := 43200000; p_avg_ext_block := 5000; p_signed_window := 30000;
@@ -126,46 +125,54 @@ Definition params_absent_power_change : xparams :=
      p_slash := DUnit; p_ibc_timeout_height := 20000; p_power_change := DNil;
      p_threshold := {| cd_ok := true; cd_id := 0; c_amt := IPos |}; p_multiple := 10; p_oracles := 0; p_bridge_call_timeout := 604800000 |}.
 
-Lemma params_refuted :
-  v_Params params_absent_slash = VPanic /\ v_Params params_absent_power_change = VPanic /\
-  v_MsgUpdateParams {| up_authority := BGood 1; up_chain := ChEth; up_params := params_absent_slash |} = VPanic.
-Proof. repeat split; vm_compute; reflexivity. Qed.
-
-Lemma v_MsgUpdateParams_total : forall m, params_nil_dec (up_params m) = false -> v_MsgUpdateParams m <> VPanic.
+Lemma v_MsgUpdateParams_total : forall m, v_MsgUpdateParams m <> VPanic.
 Proof.
-  intros [a c p] H; unfold v_MsgUpdateParams; cbn [up_authority up_chain up_params] in *.
-  pose proof (v_Params_total p H) as HT. destruct (v_Params p); [ | | congruence]; flow.
+  intros [a c p]; unfold v_MsgUpdateParams; cbn [up_authority up_chain up_params] in *.
+  pose proof (v_Params_total p) as HT. destruct (v_Params p); [ | | congruence]; flow.
 Qed.
 
-(* ---------------- MsgBridgeCall ---------------- *)
-Lemma v_MsgBridgeCall_panic : forall m, v_MsgBridgeCall m = VPanic ->
-  int_isnil (mb_value m) = true \/ coins_nil_amount (mb_coins m) = true.
+(* MsgBridgeCall: the explicit nil tests come first, so Coins.Validate only ever sees non-nil amounts *)
+Lemma coins_validate_no_nil_total : forall cs, coins_nil_amount cs = false -> coins_validate cs <> VPanic.
+Proof. intros cs H E. apply coins_validate_panic in E. congruence. Qed.
+
+Lemma v_MsgBridgeCall_total : forall m, v_MsgBridgeCall m <> VPanic.
 Proof.
   intros [c s r cs t d v me]; unfold v_MsgBridgeCall; cbn.
   destruct (chain_known c); cbn; [|discriminate].
   destruct (acc_ok s); cbn; [|discriminate].
   destruct (ext_ok c t); cbn; [|discriminate].
-  destruct v; cbn; auto; try discriminate.
-  pose proof (coins_validate_panic cs) as HP.
-  destruct (coins_validate cs); cbn; try discriminate; [|intros _; right; auto].
+  destruct v; cbn; try discriminate.
+  destruct (coins_nil_amount cs) eqn:HN; cbn; [discriminate|].
+  pose proof (coins_validate_no_nil_total cs HN) as HP.
+  destruct (coins_validate cs); cbn; try discriminate; [|congruence].
   flow.
 Qed.
-Lemma v_MsgBridgeCall_total : forall m, int_isnil (mb_value m) = false -> coins_nil_amount (mb_coins m) = false -> v_MsgBridgeCall m <> VPanic.
-Proof. intros m H1 H2 E; apply v_MsgBridgeCall_panic in E; destruct E; congruence. Qed.
 
 Definition bridge_call_absent_value : m_bridge_call :=
   {| mb_chain := ChEth; mb_sender := BGood 1; mb_refund := BEmpty; mb_coins := []; mb_to := XEth; mb_data := HGood; mb_value := INil; mb_memo := HEmpty |}.
 Definition bridge_call_absent_coin_amount : m_bridge_call :=
   {| mb_chain := ChEth; mb_sender := BGood 1; mb_refund := BGood 1; mb_coins := [ {| cd_ok := true; cd_id := 0; c_amt := INil |} ];
      mb_to := XEth; mb_data := HGood; mb_value := IZero; mb_memo := HEmpty |}.
-Lemma bridge_call_refuted : v_MsgBridgeCall bridge_call_absent_value = VPanic /\ v_MsgBridgeCall bridge_call_absent_coin_amount = VPanic.
-Proof. split; vm_compute; reflexivity. Qed.
 
-(* MsgConfirm: no ValidateBasic, the handler dereferences the absent Any *)
-Lemma confirm_refuted : h_MsgConfirm_entry {| mw_confirm := AnyNil |} = VPanic.
-Proof. reflexivity. Qed.
-Lemma confirm_total : forall m, mw_confirm m <> AnyNil -> h_MsgConfirm_entry m <> VPanic.
-Proof. intros [[| |c]] H; cbn in *; try discriminate; exfalso; apply H; reflexivity. Qed.
+Lemma confirm_total : forall m, h_MsgConfirm_entry m <> VPanic.
+Proof. intros [[| |c]]; cbn; discriminate. Qed.
+
+(* the inputs that used to panic are now rejected with the error the repair introduced *)
+Lemma repaired_inputs_rejected :
+  v_Params params_absent_slash = VErr "slash fraction cannot be empty" /\
+  v_Params params_absent_power_change = VErr "oracle set update power change percent cannot be empty" /\
+  v_MsgBridgeCall bridge_call_absent_value = VErr "value must be zero" /\
+  v_MsgBridgeCall bridge_call_absent_coin_amount = VErr "nil coin amount" /\
+  h_MsgConfirm_entry {| mw_confirm := AnyNil |} = VErr "empty confirm".
+Proof. repeat split; vm_compute; reflexivity. Qed.
+
+Lemma amounts_loop_total : forall l, amounts_loop l <> VPanic.
+Proof. induction l as [|a r IH]; cbn; [discriminate|]. destruct a; cbn; try discriminate; apply IH. Qed.
+Lemma amounts_loop_ok : forall l, amounts_loop l = VOk -> forall a, In a l -> a = IZero \/ a = IPos.
+Proof.
+  induction l as [|a r IH]; cbn; [intros _ ? []|].
+  destruct a; cbn; try discriminate; intros H a' [<-|Hin]; auto.
+Qed.
 
 (* ---------------- every other validator is total ---------------- *)
 Lemma v_claim_total : forall c, v_claim c <> VPanic.
@@ -176,6 +183,7 @@ Proof.
     destruct (chain_known ch); cbn; [|discriminate].
     destruct (Nat.eqb (List.length toks) (List.length ams)); cbn; [|discriminate].
     pose proof (tokens_loop_total ch toks). destruct (tokens_loop ch toks); try congruence; try discriminate.
+    pose proof (amounts_loop_total ams). destruct (amounts_loop ams); try congruence; try discriminate.
     flow.
   - destruct c; unfold v_MsgBridgeCallResultClaim; flow.
   - destruct c; unfold v_MsgSendToExternalClaim; flow.
@@ -188,11 +196,11 @@ Proof.
     destruct (members_loop ch mr); try congruence; try discriminate. flow.
 Qed.
 
-Lemma validate_total : forall i, known_panic_input i = false -> validate i <> VPanic.
+Lemma validate_total : forall i, decodable i = true -> validate i <> VPanic.
 Proof.
-  destruct i; cbn [validate known_panic_input]; intros H.
-  - apply v_Params_total; exact H.
-  - apply v_MsgUpdateParams_total; exact H.
+  destruct i; cbn [validate decodable]; intros H.
+  - apply v_Params_total.
+  - apply v_MsgUpdateParams_total.
   - destruct m as [c o b x [ok id amt]]; unfold v_MsgBondedOracle; destruct ok, amt; flow.
   - destruct m as [c o [ok id amt]]; unfold v_MsgAddDelegate; destruct ok, amt; flow.
   - destruct m; unfold v_MsgReDelegate; flow.
@@ -211,8 +219,8 @@ Proof.
     destruct l; cbn; [discriminate|]. apply (oracles_loop_total (b :: l) []).
   - destruct m as [c [| |cl]]; unfold v_MsgClaim; cbn; destruct (chain_known c); cbn; try discriminate. apply v_claim_total.
   - apply v_claim_total.
-  - apply confirm_total. destruct m as [[| |c]]; cbn in *; congruence.
-  - apply orb_false_iff in H as [H1 H2]. apply v_MsgBridgeCall_total; assumption.
+  - apply confirm_total.
+  - apply v_MsgBridgeCall_total.
   - destruct m as [s r d a]; unfold v_MsgConvertCoin; destruct a; flow.
   - destruct m as [s r c a]; unfold v_MsgConvertERC20; destruct a; flow.
   - destruct m as [s r [ok id amt]]; unfold v_MsgConvertDenom; destruct ok, amt; flow.
@@ -234,16 +242,12 @@ Proof.
     all: try (destruct value; cbn in *; discriminate).
   - unfold validate_external_addr. destruct c; try discriminate; destruct (ext_ok _ x); discriminate.
   - destruct m as [t v d]; unfold v_IbcCallEvmPacket; cbn in H; destruct v; try discriminate; flow.
+  - unfold v_PubKeyDecorator. cbn. destruct (nsig <? npub) eqn:E; cbn; [discriminate|].
+    apply Z.ltb_ge in E. apply Z.leb_le in E. rewrite E. discriminate.
+  - unfold v_MultisigGas. cbn.
+    destruct (size =? nkeys) eqn:E1; cbn; [|discriminate]. destruct (ntrue =? nsigs) eqn:E2; cbn; [|discriminate].
+    apply Z.eqb_eq in E1, E2. subst. rewrite !Z.leb_refl. cbn. discriminate.
 Qed.
-
-(* the recorded panic classes are real in the model (none of the guards is vacuous) *)
-Lemma known_panics_are_panics :
-  validate (I_Params params_absent_slash) = VPanic /\
-  validate (I_MsgUpdateParams {| up_authority := BGood 1; up_chain := ChTron; up_params := params_absent_power_change |}) = VPanic /\
-  validate (I_MsgBridgeCall bridge_call_absent_value) = VPanic /\
-  validate (I_MsgBridgeCall bridge_call_absent_coin_amount) = VPanic /\
-  validate (I_MsgConfirm {| mw_confirm := AnyNil |}) = VPanic.
-Proof. repeat split; vm_compute; reflexivity. Qed.
 
 (* two more inputs make the transcribed Go functions panic, but no decoder can produce them: go-ethereum's abi package
    always allocates the *big.Int of a uint256, and the IBC memo is JSON, where an absent "value" becomes a fresh zero Int *)
@@ -258,7 +262,7 @@ Lemma precompile_args_total :
 Proof.
   split.
   - intro a. apply (validate_total (I_StakingArgs a)). reflexivity.
-  - intros a H. apply (validate_total (I_CrosschainArgs a)). cbn. rewrite H. reflexivity.
+  - intros a H. apply (validate_total (I_CrosschainArgs a)). exact H.
 Qed.
 
 (* ---------------- Must* helpers after validation ---------------- *)
@@ -269,6 +273,7 @@ Proof.
   destruct s; cbn; try discriminate;
   destruct t; cbn; try discriminate;
   destruct v; cbn; try discriminate;
+  (destruct (coins_nil_amount cs); cbn; [discriminate|]);
   destruct (coins_validate cs); cbn; try discriminate;
   destruct cs; cbn; destruct r; cbn; try discriminate;
   destruct d; cbn; try discriminate; destruct me; cbn; try discriminate; reflexivity.
@@ -280,6 +285,7 @@ Proof.
   destruct ch; cbn; try discriminate;
   (destruct (Nat.eqb (List.length toks) (List.length ams)); cbn; [|discriminate]);
   (destruct (tokens_loop _ toks); cbn; try discriminate);
+  (destruct (amounts_loop ams); cbn; try discriminate);
   destruct b; cbn; try discriminate; destruct s; cbn; try discriminate; destruct t; cbn; try discriminate;
   destruct r; cbn; try discriminate; destruct v; cbn; try discriminate; destruct d; cbn; try discriminate;
   (destruct (en =? 0); cbn; [discriminate|]); (destruct (bh =? 0); cbn; [discriminate|]);
@@ -292,16 +298,22 @@ Definition claim_negative_amount : c_bridge_call :=
 Definition claim_absent_amount : c_bridge_call :=
   {| bc_chain := ChEth; bc_bridger := BGood 1; bc_sender := XEth; bc_refund := XEth; bc_tokens := [XEth]; bc_amounts := [INil];
      bc_to := XEth; bc_data := HEmpty; bc_value := IZero; bc_memo := HEmpty; bc_tx_origin := XEth; bc_event_nonce := 1; bc_block_height := 1 |}.
-Lemma must_claim_amounts_refuted :
-  (v_MsgBridgeCallClaim claim_negative_amount = VOk /\ all_def (must_BridgeCallClaim_amounts claim_negative_amount) = false) /\
-  (v_MsgBridgeCallClaim claim_absent_amount = VOk /\ all_def (must_BridgeCallClaim_amounts claim_absent_amount) = false).
-Proof. repeat split; vm_compute; reflexivity. Qed.
-Lemma must_claim_amounts_guarded : forall m,
-  (forall a, In a (bc_amounts m) -> a = IZero \/ a = IPos) -> all_def (must_BridgeCallClaim_amounts m) = true.
+
+(* since edafc05: a validated claim carries only non-nil, non-negative amounts, so sdk.NewCoin in the handler is defined *)
+Lemma must_safe_claim_amounts : forall m, v_MsgBridgeCallClaim m = VOk -> all_def (must_BridgeCallClaim_amounts m) = true.
 Proof.
-  intros m H; unfold must_BridgeCallClaim_amounts, all_def. rewrite forallb_forall. intros r Hr.
-  apply in_map_iff in Hr as [a [<- Ha]]. destruct (H a Ha) as [-> | ->]; reflexivity.
+  intros [ch b s r toks ams t d v me o en bh]; unfold v_MsgBridgeCallClaim, must_BridgeCallClaim_amounts; cbn.
+  destruct (chain_known ch); cbn; [|discriminate].
+  destruct (Nat.eqb (List.length toks) (List.length ams)); cbn; [|discriminate].
+  destruct (tokens_loop ch toks); cbn; try discriminate.
+  pose proof (amounts_loop_ok ams) as HA.
+  destruct (amounts_loop ams); cbn; try discriminate.
+  intros _. unfold all_def. rewrite forallb_forall. intros x Hx.
+  apply in_map_iff in Hx as [a [<- Ha]]. destruct (HA eq_refl a Ha) as [-> | ->]; reflexivity.
 Qed.
+Lemma claim_bad_amounts_rejected :
+  v_MsgBridgeCallClaim claim_negative_amount = VErr "invalid amount" /\ v_MsgBridgeCallClaim claim_absent_amount = VErr "invalid amount".
+Proof. split; vm_compute; reflexivity. Qed.
 
 Lemma must_safe_claimer : forall c, v_claim c = VOk -> must_acc (claimer_of c) = Val tt.
 Proof.
@@ -309,7 +321,8 @@ Proof.
   - destruct c as [ch b]; unfold v_MsgSendToFxClaim; cbn; destruct (chain_known ch); cbn; try discriminate; destruct b; cbn; try discriminate; reflexivity.
   - destruct c as [ch b s r toks ams]; unfold v_MsgBridgeCallClaim; cbn; destruct (chain_known ch); cbn; try discriminate.
     destruct (Nat.eqb (List.length toks) (List.length ams)); cbn; [|discriminate].
-    destruct (tokens_loop ch toks); cbn; try discriminate. destruct b; cbn; try discriminate; reflexivity.
+    destruct (tokens_loop ch toks); cbn; try discriminate. destruct (amounts_loop ams); cbn; try discriminate.
+    destruct b; cbn; try discriminate; reflexivity.
   - destruct c as [ch b]; unfold v_MsgBridgeCallResultClaim; cbn; destruct (chain_known ch); cbn; try discriminate; destruct b; cbn; try discriminate; reflexivity.
   - destruct c as [ch b]; unfold v_MsgSendToExternalClaim; cbn; destruct (chain_known ch); cbn; try discriminate; destruct b; cbn; try discriminate; reflexivity.
   - destruct c as [ch b]; unfold v_MsgBridgeTokenClaim; cbn; destruct (chain_known ch); cbn; try discriminate; destruct b; cbn; try discriminate; reflexivity.
@@ -338,11 +351,7 @@ Proof.
   intros [c s r cs t d v me]; unfold v_MsgBridgeCall; cbn.
   destruct (chain_known c); cbn; [|discriminate]. destruct (acc_ok s); cbn; [|discriminate]. destruct (ext_ok c t); cbn; [|discriminate].
   destruct v; cbn; try discriminate.
-  destruct cs as [|c0 cr]; cbn; [intros _; auto|].
-  destruct c0 as [ok id amt]; cbn. destruct ok; cbn; [|discriminate].
-  destruct amt; cbn; try discriminate.
-  pose proof (coins_rest_ok_no_nil cr id) as HR. destruct (coins_validate_rest id cr); cbn; try discriminate.
-  intros _; split; auto.
+  destruct (coins_nil_amount cs); cbn; [discriminate|]. intros _; auto.
 Qed.
 
 (* ---------------- non-vacuity ---------------- *)
@@ -359,6 +368,7 @@ Lemma validate_nonvacuous :
   v_MsgClaim {| mc_chain := ChTron; mc_claim := AnyIs (ClBridgeCall ok_claim) |} = VOk /\
   all_def (must_BridgeCallClaim_addr ok_claim) = true /\ all_def (must_BridgeCallClaim_amounts ok_claim) = true /\
   h_MsgConfirm_entry {| mw_confirm := AnyOther |} = VErr "invalid claim" /\
+  h_MsgConfirm_entry {| mw_confirm := AnyNil |} = VErr "empty confirm" /\
   v_crosschain_args (CA_BridgeCall true BgZero 2 2 false) = VOk /\
   v_MsgSendToExternal {| se_chain := ChEth; se_sender := BGood 1; se_dest := XTron; se_amount := {| cd_ok := true; cd_id := 0; c_amt := IPos |}; se_fee := {| cd_ok := true; cd_id := 0; c_amt := IPos |} |} = VErr "invalid dest address".
 Proof. repeat split; vm_compute; reflexivity. Qed.
